@@ -703,8 +703,10 @@ def check_consequences(ck, case, meta, got, sd, jc):
             exp = rel - (1 if hap else 0)
         else:
             exp = rel - 1
-            if not (allm or rel == 0):
-                continue             # females hold Y at -1 whatever the baseline: a mixed column
+            if allf:
+                exp, exact_ok, rel = Fr(-1), True, Fr(0)     # C05_sex_levels_y_females: -1 whatever the baseline
+            elif not (allm or rel == 0):
+                continue             # both sexes and a baseline off the centre: a mixed column (C05_sex_levels_y_mixed_refuted)
         if (k >= 2 and exact_ok) or rel == 0:
             if not vlib.close(r[4], exp) or not (abs(r[6]) <= 1e-9):
                 what = ('normals differing only in depth do not reproduce their profile with spread 0' if auto else
@@ -956,6 +958,139 @@ def check_gc_strings(ck, n):
 
 
 # ----------------------------------------------------------------------------
+# gc / rmask columns of the POOLED reference (C05_pooled_gc_rmask, C05_pooled_gc_first_file)
+
+def write_cnn_gc(path, rows, gcs):
+    with open(path, 'w') as fh:
+        fh.write('chromosome\tstart\tend\tgene\tdepth\tlog2' + ('\tgc' if gcs is not None else '') + '\n')
+        for i, r in enumerate(rows):
+            fh.write('%s\t%d\t%d\t%s\t%r\t%r' % (r[0], r[1], r[2], r[3], float(r[5]), float(r[4])))
+            fh.write(('\t%r\n' % float(gcs[i])) if gcs is not None else '\n')
+
+
+def check_pool_gc(ck, scratch, n):
+    """do_reference with a FASTA (gc / rmask computed per bin) or without one (gc taken from the first file of each
+    block): the two columns of the pooled table against the direct count and against Model/Reference.v pool_gc"""
+    from cnvlib import reference
+    rng = ck.rng
+    runs = []
+    for i in range(n):
+        mode = 'fasta' if i % 3 else 'filegc'
+        tb = sort_rows([list(b) for b in gen_layout(rng, build=None, nbins=rng.randint(5, 14), extra=False)])
+        how = rng.choice(['same', 'same', 'none', 'empty'])
+        ab = []
+        if how == 'same':
+            ends = {}
+            for b in tb:
+                ends[b[0]] = max(ends.get(b[0], 0), b[2])
+            for c in list(ends)[: rng.randint(1, len(ends))]:
+                pos = ends[c] + rng.randint(1, 200)
+                for _ in range(rng.randint(1, 3)):
+                    ln = rng.randint(30, 300)
+                    ab.append([c, pos, pos + ln, 'Antitarget'])
+                    pos += ln + rng.choice([0, 40])
+            ab = sort_rows(ab)
+        k = rng.randint(1, 3)
+        ids = sorted(rng.sample(['s%02d' % j for j in range(30)], k))
+        do_gc, do_rmask = rng.random() < 0.75, rng.random() < 0.6
+        d = os.path.join(scratch, 'poolgc%d' % i)
+        os.makedirs(d, exist_ok=True)
+        tgcs = {sid: [Fr(rng.randint(16, 48), 64) for _ in tb] for sid in ids} if mode == 'filegc' and rng.random() < 0.8 else None
+        agcs = {sid: [Fr(rng.randint(16, 48), 64) for _ in ab] for sid in ids} if mode == 'filegc' and rng.random() < 0.7 else None
+        tn, an = [], (None if how == 'none' else [])
+        for sid in ids:
+            rows = [[b[0], b[1], b[2], b[3], grid(rng, -1, 1), Fr(rng.randint(32, 512), 64)] for b in tb]
+            pth = os.path.join(d, sid + '.targetcoverage.cnn')
+            write_cnn_gc(pth, rows, tgcs[sid] if tgcs else None)
+            tn.append(pth)
+            if an is not None:
+                arows = [[b[0], b[1], b[2], b[3], grid(rng, -1, 1), Fr(rng.randint(32, 512), 64)] for b in (ab if how == 'same' else [])]
+                pth = os.path.join(d, sid + '.antitargetcoverage.cnn')
+                write_cnn_gc(pth, arows, (agcs[sid] if agcs else None))
+                an.append(pth)
+        rng.shuffle(tn)
+        seqs, fa = None, None
+        if mode == 'fasta':
+            seqs = fasta_for(rng, [tuple(b) for b in tb + ab], short=True)
+            fa = os.path.join(d, 'g.fa')
+            write_fasta(fa, seqs)
+        case = {'mode': mode, 'targets': tb, 'antis': ab, 'how': how, 'ids': ids, 'do_gc': do_gc, 'do_rmask': do_rmask,
+                'seqs': seqs, 'tgc': None if not tgcs else [float(x) for x in tgcs[ids[0]]],
+                'agc': None if not (agcs and ab) else [float(x) for x in agcs[ids[0]]]}
+        try:
+            ref = reference.do_reference(tn, an, fa, False, None, True, do_gc, False, do_rmask)
+            got = table_rows(ref, ('gc', 'rmask'))
+        except Exception as e:  # noqa
+            got = Err(err_kind(e) + ':' + str(e)[:80])
+        runs.append((case, got))
+    def minput(c):
+        fa = None if c['seqs'] is None else [[k, v] for k, v in c['seqs'].items()]
+        return [fa, c['do_gc'], c['do_rmask'], [list(b) for b in c['targets']], [list(b) for b in c['antis']],
+                None if c['tgc'] is None else [Fr(x) for x in c['tgc']], None if c['agc'] is None else [Fr(x) for x in c['agc']]]
+    mods = vlib.model_batch('c05_pool_gc', [minput(c) for c, _ in runs])
+    for (case, got), mod in zip(runs, mods):
+        jc = {k: v for k, v in case.items() if k != 'seqs'}
+        jc['seqs'] = None if case['seqs'] is None else {k: v[:400] for k, v in case['seqs'].items()}
+        ck.count(['poolgc', jc], nontrivial=True, cls='poolgc:%s:%s' % (case['mode'], case['how']))
+        if isinstance(got, Err):
+            ck.violation('do_reference raised on a valid cohort (gc / rmask stream)', jc, code=got, expected='a table', clause='C05_bins')
+            continue
+        # direct oracle
+        anti_keys = {tuple(b[:3]) for b in case['antis']}
+        exp = []
+        for r in got:
+            key = tuple(r[:3])
+            if case['mode'] == 'fasta':
+                sub = case['seqs'][r[0]][r[1]:r[2]]
+                g, m = gc_oracle(sub)
+                eg = g if case['do_gc'] else None
+                em = (m if key in anti_keys else 'nan') if (case['do_rmask'] and case['antis']) else None
+            else:
+                col = case['agc'] if key in anti_keys else case['tgc']
+                rows = case['antis'] if key in anti_keys else case['targets']
+                has_any = case['do_gc'] and (case['tgc'] is not None or case['agc'] is not None)
+                if not has_any:
+                    eg = None
+                elif col is None:
+                    eg = 'nan'
+                else:
+                    eg = Fr(col[[tuple(b[:3]) for b in rows].index(key)])
+                em = None
+            exp.append((eg, em))
+        def same(code, e):
+            if e is None:
+                return code is None
+            if e == 'nan':
+                return code is not None and code != code
+            return code is not None and code == code and vlib.close(code, e)
+        bad = [(r, e) for r, e in zip(got, exp) if not (same(r[4], e[0]) and same(r[5], e[1]))]
+        if bad:
+            r, e = bad[0]
+            ck.violation('gc / rmask column of the pooled reference is not the G+C / lowercase fraction of the bin (FASTA) or the '
+                         'first file\'s gc value (no FASTA)', jc, code=r, expected=[None if x is None else (x if x == 'nan' else float(x)) for x in e],
+                         clause='C05_pooled_gc_rmask' if case['mode'] == 'fasta' else 'C05_pooled_gc_first_file')
+            continue
+        # model
+        if isinstance(mod, Err) or len(mod) != 3 or len(mod[2]) != len(got):
+            ck.tie_break('model pool_gc differs from the code', jc, code=got[:3], model=repr(mod)[:300])
+            continue
+        hg, hr, mrows = mod
+        ok = (hg == any(r[4] is not None for r in got) or not got) and (hr == any(r[5] is not None for r in got) or not got)
+        for r, m in zip(got, mrows):
+            if tuple(r[:4]) != tuple(m[:4]):
+                ok = False
+            for cv, mv, has in ((r[4], m[4], hg), (r[5], m[5], hr)):
+                if not has:
+                    ok = ok and cv is None
+                elif mv is None:
+                    ok = ok and cv is not None and cv != cv
+                else:
+                    ok = ok and cv is not None and cv == cv and vlib.close(cv, mv)
+        if not ok:
+            ck.tie_break('model pool_gc differs from the code', jc, code=got[:4], model=repr(mod)[:400])
+
+
+# ----------------------------------------------------------------------------
 # estimator vectors (the two descriptives functions alone)
 
 def gen_column(rng):
@@ -1100,7 +1235,8 @@ def run(ck, scratch):
                'none/equal/empty antitargets, shuffled file and row order) -> do_reference with corrections off vs the direct '
                'oracle (independent Fraction implementation of bins, centring, sex shift, published biweight formulas) and '
                'vs the Coq model; malformed stream: one file with a changed/dropped/duplicated bin, unequal file counts; '
-               'flat references from BED files with/without FASTA; gc/rmask on random strings and FASTA bins; single columns '
+               'flat references from BED files with/without FASTA; gc/rmask on random strings and FASTA bins; the gc/rmask columns of '
+               'pooled references with a FASTA (sequences shorter than a bin included) and without one (gc column of the first file); single columns '
                'for the two estimators; non-trivial = >= 2 samples and a table produced / a column with two distinct values')
     ck.unproved_remainder = [
         'noise clauses ("spread ~ 0", X/Y levels under noise, corrections on): evaluated on the code only with tolerance 0.15 '
@@ -1110,7 +1246,11 @@ def run(ck, scratch):
         'corrections on (center_by_window): only bins, gc/rmask columns and the level clauses are checked (C04 owns the windows)',
         'C05_depth_only / C05_sex_levels exclude a flat value strictly within epsilon (1e-3) of the common sample value '
         '(it is not masked and pulls the location by < epsilon; spread then tiny, not 0); C05_sex_levels_y is proved for Y '
-        'bins whose baseline is the autosomal centre (female samples are set to -1 whatever the baseline)',
+        'bins whose baseline is the autosomal centre; for another baseline a: all-male blocks give a - 1 (C05_sex_levels_y_males), '
+        'all-female blocks -1 (C05_sex_levels_y_females), mixed blocks have a non-constant column (C05_sex_levels_y_mixed_refuted: '
+        'sharp witness), the general mixed column is only covered by C05_estimator',
+        'C05_pooled_gc_rmask: in a pooled reference rmask exists for antitarget bins only (target bins hold NaN: the target block is '
+        'loaded with fix_rmask=False) -- proved of the model and compared with the code; the property text speaks of "each bin"',
         'exact evaluation of the extracted model costs too much once the biweight iteration needs >= 2-3 steps on unreduced '
         'rationals: those cohorts/columns (classes *:model-skipped-*) are compared with the independent oracle only '
         '(published formulas in Fractions, centre carried with 220 fractional bits); the all_logr columns are compared '
@@ -1185,6 +1325,7 @@ def run(ck, scratch):
     for i in range(30 if quick else 500):
         check_flat_case(ck, scratch, 'flat%d' % i, gen_flat(rng, with_fa=(i % 2 == 0)))
     check_gc_strings(ck, 300 if quick else 2500)
+    check_pool_gc(ck, scratch, 18 if quick else 240)
     # ---- noise clauses
     check_noisy(ck, scratch, 5 if quick else 60)
 
